@@ -25,6 +25,19 @@ Line-protocol driver for the C06 model (fan-out queue with consumer groups).
   race2 <g> <g2> <n>     (two stores parked at once: Ack n on g ‖ Consume g ‖ GetOrCreate g2 ‖ Sync;GC
       = ack; consume; create; sync; gc — answers the Consume result)
   setappsync <n>         (Sync called in the middle of SetAppendedSeq n = setapp n)
+  wbegin <g> | wend <g>  (three-step Consume, Model/C06Woken.lean: wbegin = a Consume call has passed NotEmpty
+      and sits before the lock of consume() (yield point c06-consume-enter): answers `woken | …`; wend = it
+      takes the lock and returns: answers `<result> | …`. Lines closing the group's handle answer
+      `not-enabled` meanwhile.)
+  ackfault <g> <n>       (Ack n on g whose msync fails, Model/C06Msync.lean `State.ackFault`: in the pinned
+      shape = ack g n)
+  acksync <g> <n> <f>    (Sync; GC while Ack n on g sits in its msync, which then returns — f=1: with an
+      error —, `State.ackSync`: in the pinned shape = ack g n; sync; gc)
+  syncack <g> <n>        (Sync parked in the msync of queue.SetAcknowledgedSeq, holding the queue's lock,
+      while g acknowledges n and a second Sync is started = sync; ack g n; sync)
+  syncreset <n>          (the same while FanOutQueue.SetAppendedSeq n is started = sync; setapp n)
+      The msync shape interpreted (`Msync.shapeOf`) is computed from the regenerated access tables of Ack
+      and queue.SetAcknowledgedSeq.
 
 State operations answer `<result> | q=<appended>/<ack> | <g>=<consumed>/<ack> ...` (live groups,
 ascending by name); `get` answers `ok <len>` / `out-of-range` / `not-found`; `pages` answers
@@ -37,6 +50,8 @@ import LinVerif.Util.Proto
 import LinVerif.Model.FanOutPark
 import LinVerif.Model.FanOutFault
 import LinVerif.Model.FanOutRepl
+import LinVerif.Model.C06Msync
+import LinVerif.Model.C06Woken
 import LinVerif.Generated.C06
 
 namespace LinVerif.Driver.C06
@@ -132,6 +147,9 @@ def showPRes : PRes → String
 
 def preply (p : PState × PRes) : PState × String := (p.1, showPRes p.2 ++ " | " ++ showState p.1.s)
 
+/-- the msync shape of the current source (regenerated access tables) -/
+def msyncShape : Msync.Shape := Msync.shapeOf Generated.C06.ackAccess Generated.C06.queueSetAckAccess
+
 def pstepLine (v : Variant) (ps : PState) (ws : List String) : PState × String :=
   match ws with
   | ["cbegin", g] =>
@@ -213,6 +231,35 @@ def pstepLine (v : Variant) (ps : PState) (ws : List String) : PState × String 
       let r := step v ps.s (.setAppended n)
       ({ ps with s := r.1 }, showRes r.2 ++ " | " ++ showState r.1)
     | none => (ps, "bad-op")
+  | ["ackfault", g, n] =>
+    match g.toNat?, n.toInt? with
+    | some g, some n =>
+      let s' := Msync.State.ackFault msyncShape v ps.s g n
+      ({ ps with s := s' }, "ok | " ++ showState s')
+    | _, _ => (ps, "bad-op")
+  | ["acksync", g, n, f] =>
+    match g.toNat?, n.toInt?, f.toNat? with
+    | some g, some n, some f =>
+      if f > 1 then (ps, "bad-op") else
+      let s' := Msync.State.ackSync msyncShape v ps.s g n (f == 1)
+      ({ ps with s := s' }, "ok | " ++ showState s')
+    | _, _, _ => (ps, "bad-op")
+  | ["syncack", g, n] =>
+    -- the parked Sync holds the queue's write lock: the second Sync is ordered after it
+    match g.toNat?, n.toInt? with
+    | some g, some n =>
+      let s1 := (step v ps.s .sync).1
+      let s2 := (step v s1 (.ack g n)).1
+      let s3 := (step v s2 .sync).1
+      ({ ps with s := s3 }, "ok | " ++ showState s3)
+    | _, _ => (ps, "bad-op")
+  | ["syncreset", n] =>
+    match n.toInt? with
+    | some n => if n < -1 then (ps, "bad-op") else
+      let s1 := (step v ps.s .sync).1
+      let r := step v s1 (.setAppended n)
+      ({ ps with s := r.1 }, showRes r.2 ++ " | " ++ showState r.1)
+    | none => (ps, "bad-op")
   | ["reset"] => (PState.init, "ok")
   | _ =>
     let r := stepLine v ps.s ws
@@ -224,6 +271,15 @@ handle to read them from). -/
 structure DState where
   ps : PState
   hidden : List Nat
+  /-- groups whose Consume call sits between NotEmpty's return and consume()'s lock (Model/C06Woken.lean) -/
+  woken : List Nat := []
+
+/-- lines that close a group's handle; not enabled while a Consume call of that group is in flight -/
+def closingLine (ws : List String) (woken : List Nat) : Bool :=
+  match ws with
+  | ["stop", g] => match g.toNat? with | some gi => woken.contains gi | none => false
+  | ["reopen"] | ["reopenlazy"] | ["reopenfault", _] | ["expire"] => !woken.isEmpty
+  | _ => false
 
 def hideGroups (hidden : List Nat) (line : String) (s : State) : String :=
   -- re-render the state part of a reply without the hidden groups
@@ -234,7 +290,24 @@ def hideGroups (hidden : List Nat) (line : String) (s : State) : String :=
   | _ => line
 
 def dstepLine (v : Variant) (d : DState) (ws : List String) : DState × String :=
+  if closingLine ws d.woken then (d, "not-enabled") else
   match ws with
+  | ["wbegin", g] =>
+    match g.toNat? with
+    | some gi =>
+      let r := wstep v { ps := d.ps, woken := d.woken } (.wbegin gi)
+      match r.2 with
+      | .wokenNow => ({ d with woken := r.1.woken }, "woken | " ++ showState d.ps.s)
+      | _ => (d, "not-enabled | " ++ showState d.ps.s)
+    | none => (d, "bad-op")
+  | ["wend", g] =>
+    match g.toNat? with
+    | some gi =>
+      let r := wstep v { ps := d.ps, woken := d.woken } (.wend gi)
+      match r.2 with
+      | .res (.res x) => ({ d with ps := r.1.ps, woken := r.1.woken }, showRes x ++ " | " ++ showState r.1.ps.s)
+      | _ => (d, "not-enabled | " ++ showState d.ps.s)
+    | none => (d, "bad-op")
   | ["reopenlazy"] =>
     -- Close ; NewFanOutQueue without looking any group up: the model restores all of them
     let r := pstepLine v d.ps ["reopen"]
